@@ -201,6 +201,23 @@ def run(ctx):
     trees = [gen_case(rng, i) for i in range(ctx.n(1200, 40000))]
     trees = [t for t in trees if gen.tree_depth(t) <= 9]
     run_cases(ctx, trees, "random")
+    # deep dicts: strings that need quoting at key paths of 9 and of exactly 10 entries (the documented nesting limit),
+    # through dicts only, through lists, through a list of dicts
+    deep = []
+    for i in range(ctx.n(18, 120)):
+        target = 9 + i % 2
+        shape = (i // 2) % 3
+        names = [gen.word(rng, 1, 5) + str(j) for j in range(10)]
+        if shape == 0:
+            t, nlev = {"s": rng.choice(["two words", "a;b", ""]), "n": i}, target - 1
+        elif shape == 1:
+            t, nlev = {"m": [["x axis", "u"], ["v", "w z"]], "n": 2}, target - 3
+        else:
+            t, nlev = {"items": [{"spec": {"name": "left wheel", "size": 4}}, {"spec": {"name": "r w", "size": 5}}]}, target - 4
+        for k in reversed(names[:nlev]):
+            t = {k: t}
+        deep.append(t)
+    run_cases(ctx, deep, "deep")
     # sessions: one parser object over several dicts that share quoted leaves (the same dict again, the same strings in
     # other places), string and file route, counter resets in between
     for i in range(ctx.n(40, 800)):
